@@ -169,14 +169,73 @@ Definition if_write (fuel : nat) (ui data : pv) : res (pv * pv) :=
   txt <- InputFile_stringify fuel dem ;;
   Ok (ui', txt).
 
-(* the whole trip: construct, read .data, write, json, read back, read .data *)
+(* InputFile.set_data_value(key, value) with validate=False (key is never "geoh5" here) *)
+Definition if_set_value (st : pv * pv) (kv : pv * pv) : res (pv * pv) :=
+  let '(ui, data) := st in
+  data' <- setitem data (fst kv) (snd kv) ;;
+  ui' <- update_ui_values true ui (PDict [kv]) ;;
+  Ok (ui', data').
+
+(* the whole trip: construct, read .data, set some values, write, json, read back, read .data *)
 Record trip := { t_ui0 : pv; t_data0 : pv; t_ui_written : pv; t_json : pv; t_ui1 : pv; t_data1 : pv }.
 
-Definition round_trip (fuel : nat) (W : world) (ui_in : pv) : res trip :=
+Definition round_trip (fuel : nat) (W : world) (ui_in : pv) (sets : list (pv * pv)) : res trip :=
   ui0 <- if_set_ui fuel ui_in ;;
-  '(ui0, d0) <- if_data fuel W ui0 ;;
+  st <- if_data fuel W ui0 ;;
+  '(ui0, d0) <- fold_res if_set_value sets st ;;
   '(uiw, txt) <- if_write fuel ui0 d0 ;;
   j <- json_roundtrip txt ;;
   ui1 <- if_set_ui fuel j ;;
   '(ui1, d1) <- if_data fuel W ui1 ;;
+  known <- geoh5_ok d1 ;;
+  _ <- (if known then Ok PNone else getitem d1 (PStr "geoh5")) ;;      (* read_ui_json: input_file.geoh5 -> self.data["geoh5"] *)
   Ok {| t_ui0 := ui0; t_data0 := d0; t_ui_written := uiw; t_json := j; t_ui1 := ui1; t_data1 := d1 |}.
+
+(* ------------------------------------------------------------------ statements about values (used by Properties/C14.v) *)
+Definition apply_all (fs : list (pv -> res pv)) (v : pv) : res pv := fold_res (fun v f => f v) fs v.
+Definition demote_funs : list (pv -> res pv) := [entity2uuid; as_str_if_uuid; workspace2path; container_group2name].
+Definition write_funs : list (pv -> res pv) := [nan2str; inf2str; as_str_if_uuid; none2str].
+Definition read_funs : list (pv -> res pv) := [str2none; str2inf; str2uuid; path2workspace].
+
+(* one value through the mappers exactly as demote / stringify / json / numify apply them (dict_mapper each time) *)
+Definition value_trip (fuel : nat) (v : pv) : res pv :=
+  v1 <- dict_mapper fuel v demote_funs ;;
+  v2 <- dict_mapper fuel v1 write_funs ;;
+  v3 <- json_roundtrip v2 ;;
+  dict_mapper fuel v3 read_funs.
+(* what is written *)
+Definition value_written (fuel : nat) (v : pv) : res pv :=
+  v1 <- dict_mapper fuel v demote_funs ;; dict_mapper fuel v1 write_funs.
+
+Definition is_some {A} (o : option A) : bool := match o with Some _ => true | None => false end.
+
+(* strings that are not the text of another value kind *)
+Definition string_safe (s : string) : bool :=
+  negb (String.eqb s "") && negb (String.eqb s "inf") && negb (String.eqb s "-inf")
+  && negb (is_some (parse_uuid s)) && negb (String.eqb (path_suffix s) ".geoh5").
+Definition int_safe (z : Z) : bool := negb (is_some (parse_uuid (dec_of_Z z))).
+(* the braced text of a uuid parses back to it and is not a workspace path (decidable) *)
+Definition uuid_text_ok (u : N) : bool :=
+  let t := (("{" ++ uuid_text u) ++ "}")%string in
+  match parse_uuid t with Some w => N.eqb w u | None => false end
+  && negb (String.eqb (path_suffix t) ".geoh5").
+Definition ws_path_ok (p : string) : bool :=
+  negb (String.eqb p "") && negb (String.eqb p "inf") && negb (String.eqb p "-inf")
+  && negb (is_some (parse_uuid p)) && String.eqb (path_suffix p) ".geoh5".
+
+(* scalars whose text form is not the text form of another value *)
+Definition atom_safe (v : pv) : bool :=
+  match v with
+  | PNone | PBool _ => true
+  | PInt z => int_safe z
+  | PFloat (FNaN _) => false
+  | PFloat _ => true
+  | PStr s => string_safe s
+  | PUuid u | PEnt _ u => uuid_text_ok u
+  | PWs p => ws_path_ok p
+  | _ => false
+  end.
+(* what comes back before promotion: entities as their identifiers *)
+Definition canon (v : pv) : pv := match v with PEnt _ u => PUuid u | _ => v end.
+Definition is_atom (v : pv) : bool :=
+  match v with PList _ | PTuple _ | PDict _ | PType _ => false | _ => true end.
